@@ -188,6 +188,11 @@ def gen_profiles(rng, tier):
         spec = {"kind": rng.choice(["balanced", "spiky", "mixed_days"]), "scale": 20000.0, "seed": rng.randrange(1, 10 ** 6)}
         for rc in (3901000.0, 1500000.0, 2600000.0):
             ps.append({"months": 12, "loads": spec, "spikes": [], "grout_rhocp": rc})
+    # ONE short-time model object recomputed for a second borehole (same height and soil, another grout conductivity) after a hybrid load was
+    # built from it for the first: the durations are those of the response the object holds NOW
+    for k in range(1 if tier == "quick" else 3):
+        spec = {"kind": ["spiky", "balanced", "mixed_days"][k % 3], "scale": 20000.0, "seed": 7 + k}
+        ps.append({"months": 12, "loads": spec, "spikes": [], "reuse_rn": [[1.0, 2.6], [2.4, 0.8], [1.0, 1.9]][k % 3]})
     # two different years of loads with the same length and the same annual total (one is the other shifted by some weeks), in one process
     for k in range(1 if tier == "quick" else 3):
         spec = {"kind": rng.choice(["balanced", "heating", "cooling"]), "scale": 18000.0, "seed": rng.randrange(1, 10 ** 6)}
